@@ -109,6 +109,12 @@ def coo_recipe(rng, idx):
             live = [v for v in live if v < 2 ** 24]             # the cut travels as a C float
         cand = [0] + [v for v in live if v < max(live)] if live else [0]
         rec["cut"] = cand[rng.randint(len(cand))]
+        # the property is about cuts "selecting at least one pixel" (an empty frame is None in the library):
+        # if mask and cut leave nothing, switch the first lit pixel on with a positive value
+        if not [v for p, v in zip(pos, vals) if (p[0], p[1]) not in offs and v > rec["cut"]]:
+            rec["off"] = [p for p in off if (p[0], p[1]) != (pos[0][0], pos[0][1])]
+            lit[0][2] = abs(lit[0][2]) or 1
+            rec["cut"] = 0
     return rec
 
 
